@@ -286,6 +286,88 @@ pub fn c12(ctx: &Ctx) -> (Report, Meta) {
         }
         rep.outcome_n("A-B-A histories", (ok_idx.len() * n) as u64);
     }
+    // length ladder: a previous frame of (nearly) every body length, full of one-bits, followed by a short target
+    // whose zero fields and padding bits would show anything a length-dependent wipe leaves behind
+    {
+        let mut ladder: Vec<(String, Message)> = vec![];
+        if let Message::Msg1029(t) = decode_frame(&make_frame(&zero_payload(1029)[..12])) {
+            for bytes in 0..=255usize {
+                let j = if bytes > 127 { (bytes - 127 + 1) / 2 } else { 0 };
+                if 3 * j > bytes {
+                    continue;
+                }
+                let k = bytes - 3 * j;
+                let mut text: String = std::iter::repeat('\u{ffff}').take(j).collect();
+                text.extend(std::iter::repeat('\u{7f}').take(k));
+                let mut a = t.clone();
+                a.text_str = ArrayString::<255>::from(text.as_str());
+                ladder.push((format!("1029 with {} text bytes (body {} bytes)", bytes, 9 + bytes), Message::Msg1029(a)));
+            }
+        }
+        let mut seen_len = std::collections::BTreeSet::new();
+        for g in 1..=4usize {
+            for sn in g..=64 / g {
+                for c in sn..=sn * g {
+                    let bits = 169 + sn * g + 36 * sn + 80 * c;
+                    let body = (bits + 7) / 8;
+                    if body > 1023 || !seen_len.insert(body) {
+                        continue;
+                    }
+                    let sats: Vec<u8> = (1..=sn as u8).collect();
+                    let sigs: Vec<u8> = SIG_GPS[..g].iter().map(|e| e.0).collect();
+                    let mut cells: Vec<(u8, u8)> = (0..sn).map(|i| (sats[i], sigs[i % g])).collect();
+                    'fill: for i in 0..sn {
+                        for j in 0..g {
+                            if cells.len() >= c {
+                                break 'fill;
+                            }
+                            if !cells.contains(&(sats[i], sigs[j])) {
+                                cells.push((sats[i], sigs[j]));
+                            }
+                        }
+                    }
+                    let p = crate::msm::spec_payload(1077, &sats, &sigs, &cells, 0xFFFF_FFFF_FFFF);
+                    ladder.push((format!("1077 {}x{} with {} cells (body {} bytes)", sn, g, cells.len(), body), decode_frame(&make_frame(&p))));
+                }
+            }
+        }
+        let targets: Vec<usize> = (0..n).filter(|i| {
+            let nm = pool[*i].0.as_str();
+            ["Msg1001 x0 default satellites", "Msg1001 x1 default satellites", "Msg1001 x2 default satellites", "Msg1001 x3 default satellites", "Msg1004 x1 default satellites", "Msg1012 x1 default satellites", "1005:zero", "1029:zero", "1230:zero", "1127 1x1"].contains(&nm)
+        }).collect();
+        let mut rungs = 0u64;
+        let mut lens = std::collections::BTreeSet::new();
+        for (aname, a) in &ladder {
+            let fa = build_on(&mut MessageBuilder::new(), a);
+            let Ok(Ok(fa)) = fa else { continue };
+            rungs += 1;
+            lens.insert(fa.len());
+            for &t in &targets {
+                let mut b = MessageBuilder::new();
+                let _ = build_on(&mut b, a);
+                let r = build_on(&mut b, &pool[t].1);
+                rep.transitions += 1;
+                rep.traces += 1;
+                let same = match (&r, &fresh[t]) {
+                    (Ok(Ok(x)), Ok(Ok(y))) => x == y,
+                    (Ok(Err(_)), Ok(Err(_))) => true,
+                    (Err(_), Err(_)) => true,
+                    _ => false,
+                };
+                if !same {
+                    rep.violation("C12", format!("history-dependent-ladder:{}", pool[t].0), format!("after building '{}', building '{}' differs from a fresh builder", aname, pool[t].0), fa.len() as u64,
+                        json!({"kind":"builder_ladder","previous":aname,"target":pool[t].0}));
+                }
+            }
+        }
+        rep.outcome_n("ladder-rungs (distinct previous frames)", rungs);
+        rep.extra.insert("ladder_distinct_frame_lengths".into(), json!(lens.len()));
+        rep.extra.insert("ladder_targets".into(), json!(targets.iter().map(|t| pool[*t].0.clone()).collect::<Vec<_>>()));
+        if targets.len() < 4 || rungs < 200 {
+            println!("MACHINERY-FAILURE: C12 length ladder degenerate ({} targets, {} rungs)", targets.len(), rungs);
+            std::process::exit(2);
+        }
+    }
     rep.states = states.len() as u64;
     rep.distinct_nontrivial = states.len() as u64;
     rep.extra.insert("pool_size".into(), json!(n));
@@ -298,7 +380,7 @@ pub fn c12(ctx: &Ctx) -> (Report, Meta) {
     rep.sample(json!({"history":["1004x31/ff","1300 NaN epoch (fails at the last field)"],"target":"1005:zero","oracle":"same bytes as a fresh builder"}));
     rep.sample(json!({"pool": pool.iter().map(|p| p.0.clone()).take(12).collect::<Vec<_>>()}));
     let meta = Meta {
-        rule: "pool = messages decoded from the zero / ones / testdata / counter payloads of every supported type (those the encoder refuses stay in the pool as failing operations) + maximum-length messages + messages without a wire form + messages failing at the first field, inside a list (GLONASS legacy messages failing in their k-th satellite, k = 1..12, i.e. at many bit positions), at the last field + legacy messages with 0..=12 default satellites (targets of many bit lengths). Breadth-first search from the fresh builder: state = (buffer, has_run) via hook H3, action = build(p); frontier states are re-created by replaying their shortest history. In every reachable state every pool message is built and compared with the fresh-builder result (public API only). The search runs until no new state appears (all finite histories over the pool) or a bound is hit. Additionally every history of the shape [A, B, A] over the pool is run without deduplication. states = distinct builder states; transitions = builds compared".into(),
+        rule: "pool = messages decoded from the zero / ones / testdata / counter payloads of every supported type (those the encoder refuses stay in the pool as failing operations) + maximum-length messages + messages without a wire form + messages failing at the first field, inside a list (GLONASS legacy messages failing in their k-th satellite, k = 1..12, i.e. at many bit positions), at the last field + legacy messages with 0..=12 default satellites (targets of many bit lengths). Breadth-first search from the fresh builder: state = (buffer, has_run) via hook H3, action = build(p); frontier states are re-created by replaying their shortest history. In every reachable state every pool message is built and compared with the fresh-builder result (public API only). The search runs until no new state appears (all finite histories over the pool) or a bound is hit. Additionally every history of the shape [A, B, A] over the pool is run without deduplication, and a 'length ladder' (previous frames of several hundred distinct lengths full of one-bits: 1029 with 0..255 text bytes, 1077 with every reachable body length) is followed by each of ten short targets. states = distinct builder states; transitions = builds compared".into(),
         exhaustive: closed,
         bounds: json!({"max_depth": max_depth, "state_cap": cap_states, "pool": n}),
         assumptions: vec!["state deduplication reads the private buffer through hook H3; the verdict itself never does".into()],
